@@ -144,11 +144,23 @@ func HarnessErrors() {
 	var c C
 	var err error
 	var closer jsonrpc.ClientCloser
-	if verif.Choice("transport", verif.Bound("transports", 2)) == 0 {
+	switch verif.Choice("transport", verif.Bound("transports", 2)) {
+	case 0:
 		closer, err = jsonrpc.NewCustomClient("E", []interface{}{&c}, hx.CustomDo(srv), copts...)
-	} else {
+	case 1:
 		closer, err = jsonrpc.NewMergeClient(context.Background(), "http://server/rpc", "E", []interface{}{&c}, nil,
 			append(copts, jsonrpc.WithHTTPClient(hx.HTTPClient(srv)))...)
+	default:
+		url, stop := verif.ServeWS(srv)
+		var wsCloser jsonrpc.ClientCloser
+		wsCloser, err = jsonrpc.NewMergeClient(context.Background(), url, "E", []interface{}{&c}, nil, copts...)
+		closer = func() {
+			if wsCloser != nil {
+				wsCloser()
+			}
+			stop()
+			verif.Quiesce()
+		}
 	}
 	verif.Assert(err == nil, "client-created")
 	defer closer()
